@@ -26,13 +26,30 @@ NProg == ((NS * NS) + PerProg - 1) \div PerProg
 Ops == <<"==", "!=", "<", "<=", ">", ">=">>
 
 Lit(s) == <<Seg("\""), SegCp(s), Seg("\"")>>
-\* one pair = three statements; the result line is  <concat>|b b b b b b
+\* one pair = a few statements; the result line is  <concat>|b b b b b b.  The operations are written in three forms
+\* (chosen by the pair number) because the compiler treats them differently: inline operands of a larger expression,
+\* results stored straight into a variable, and comparisons used as conditions.
+Form(n) == n % 3
 LineSegs(p, n) ==
-  LET x == Strs[p[1]]  y == Strs[p[2]]  v == ToString(n) IN
-  <<Seg("let x" \o v \o " = ")>> \o Lit(x) \o <<Seg("\nlet y" \o v \o " = ")>> \o Lit(y) \o
-  <<Seg("\nprintln((x" \o v \o " .. y" \o v \o ") .. \"|\" .. (x" \o v \o " == y" \o v \o ") .. \" \" .. (x" \o v \o " != y" \o v \o
-        ") .. \" \" .. (x" \o v \o " < y" \o v \o ") .. \" \" .. (x" \o v \o " <= y" \o v \o ") .. \" \" .. (x" \o v \o " > y" \o v \o
-        ") .. \" \" .. (x" \o v \o " >= y" \o v \o "))\n")>>
+  LET x == Strs[p[1]]  y == Strs[p[2]]  v == ToString(n)
+      xv == "x" \o v  yv == "y" \o v
+      inl(op) == "(" \o xv \o " " \o op \o " " \o yv \o ")"
+      cnd(op) == "(if " \o xv \o " " \o op \o " " \o yv \o " { \"true\" } else { \"false\" })"
+      six(f(_)) == f("==") \o " .. \" \" .. " \o f("!=") \o " .. \" \" .. " \o f("<") \o " .. \" \" .. " \o f("<=") \o
+                " .. \" \" .. " \o f(">") \o " .. \" \" .. " \o f(">=")
+  IN
+  <<Seg("let " \o xv \o " = ")>> \o Lit(x) \o <<Seg("\nlet " \o yv \o " = ")>> \o Lit(y) \o
+  (IF Form(n) = 0 THEN
+      <<Seg("\nprintln((" \o xv \o " .. " \o yv \o ") .. \"|\" .. " \o six(inl) \o ")\n")>>
+   ELSE IF Form(n) = 1 THEN
+      <<Seg("\nlet c" \o v \o " = " \o xv \o " .. " \o yv \o
+            "\nlet e" \o v \o " = " \o xv \o " == " \o yv \o "\nlet n" \o v \o " = " \o xv \o " != " \o yv \o
+            "\nlet l" \o v \o " = " \o xv \o " < " \o yv \o "\nlet m" \o v \o " = " \o xv \o " <= " \o yv \o
+            "\nlet g" \o v \o " = " \o xv \o " > " \o yv \o "\nlet h" \o v \o " = " \o xv \o " >= " \o yv \o
+            "\nprintln(c" \o v \o " .. \"|\" .. e" \o v \o " .. \" \" .. n" \o v \o " .. \" \" .. l" \o v \o " .. \" \" .. m" \o v \o
+            " .. \" \" .. g" \o v \o " .. \" \" .. h" \o v \o ")\n")>>
+   ELSE
+      <<Seg("\nprintln((" \o xv \o " .. " \o yv \o ") .. \"|\" .. " \o six(cnd) \o ")\n")>>)
 OutSegs(p) ==
   LET x == Strs[p[1]]  y == Strs[p[2]] IN
   <<SegCp(Concat(x, y)),
